@@ -273,6 +273,59 @@ def observe_sparse_dispatch(rng, quick):
     return recs
 
 
+def _par_kron_case(seed, n, d, ket, how):
+    import quimb as qu
+
+    rng = np.random.default_rng(seed)
+    shape = (d, 1) if ket else (d, d)
+    ops = [rng.integers(-2, 3, size=shape).astype(float) for _ in range(n)]
+    ref = functools.reduce(np.kron, ops)
+    if how == "kron":
+        got = qu.kron(*ops, parallel=True)
+    elif how == "ikron":
+        got = qu.ikron(ops, [d] * n, list(range(n)), parallel=True)
+    else:
+        got = qu.core.par_reduce(qu.core.kron_dispatch, ops)
+    got = np.asarray(got)
+    return int(10 ** 6 if got.shape != ref.shape else qdiff(got, ref, 1e-11))
+
+
+def observe_parallel_kron(rng, quick):
+    """kron(*ops, parallel=True) / ikron(..., parallel=True) of dense operands whose pair products are large enough to
+    be threaded themselves, for worker counts from 1 up: each case runs in a child process with its own
+    QUIMB_NUM_THREAD_WORKERS and a time limit - a call that never returns (every worker of the shared pool waiting for
+    work it queued behind itself) is an observation (exc = "Hang"), like a crash."""
+    import json
+    import os
+    import subprocess
+    import sys
+
+    recs = []
+    cases = [(4, 12, True), (6, 12, True), (3, 12, False), (8, 6, True), (5, 3, False)]
+    if not quick:
+        cases += [(4, 16, True), (7, 12, True), (4, 6, False), (9, 4, True), (2, 200, True)]
+    workers = [1, 2, 3] if quick else [1, 2, 3, 4, 8]
+    for (n, d, ket) in cases:
+        for w in workers:
+            for how in ("kron", "ikron"):
+                sd = int(rng.integers(1 << 30))
+                code = ("from qv.props.c16 import _par_kron_case as g; print('QVOUT', g(%d, %d, %d, %r, %r))" % (sd, n, d, ket, how))
+                env = dict(os.environ, QUIMB_NUM_THREAD_WORKERS=str(w))
+                exc, dq = "", 0
+                try:
+                    p = subprocess.run([sys.executable, "-c", code], capture_output=True, text=True, timeout=120, env=env)
+                    out = [ln for ln in p.stdout.splitlines() if ln.startswith("QVOUT")]
+                    if p.returncode == 0 and out:
+                        dq = int(out[-1].split()[1])
+                    else:
+                        exc = "Signal%d" % -p.returncode if p.returncode < 0 else "ChildExit%d" % p.returncode
+                except subprocess.TimeoutExpired:
+                    exc = "Hang"
+                recs.append({"ev": "reduce", "tid": 0, "name": "%s(parallel=True) %d dense %s of dim %d" % (how, n, "kets" if ket else "operators", d),
+                             "size": n, "nt": w, "target": d, "dtype": "float64", "dq": dq, "exc": exc})
+    return recs
+
+
 def observe_gen_builders(rng, quick):
     """quimb.gen.operators Hamiltonians assembled from terms in worker threads (parallel=True, any nthreads, any
     ownership slice) against the serial assembly of the same call."""
@@ -412,6 +465,16 @@ def run(ctx):
         from ..ctx import MachineryError
         raise MachineryError("model self-test: carrying the odd item to the front must violate EqualsSerial")
 
+    # the shared pool: pair products that queue their own blocks behind themselves (C16_Pool)
+    ctx.model_check("C16_Pool", "MC_pool_fixed.cfg", name="shared-pool-repaired", require_actions=("Take", "RunOuter"), workers=2)
+    ctx.model_check("C16_Pool", "MC_pool_fewer.cfg", name="shared-pool-fewer-products-than-workers",
+                    require_actions=("Take", "RunOuter", "RunInner", "Wake"), workers=2)
+    r3 = T.run_tlc("C16_Pool", "MC_pool_pinned.cfg", ctx.spec_dir, workers=2, allow_violation=True, scratch=ctx.scratch)
+    if r3.violated != "NoHang":
+        from ..ctx import MachineryError
+        raise MachineryError("model self-test: nested submission with as many pair products as workers must violate NoHang")
+    ctx.extra["pool_selftest"] = "blocks queued behind as many waiting pair products as workers: TLC finds the hang (NoHang)"
+
     # 2. real partition functions on the grid
     if quick:
         sizes = list(range(0, 41)) + [47, 63, 64, 65, 100, 127, 128, 129, 200]
@@ -435,6 +498,7 @@ def run(ctx):
     krecs += observe_reduce(rng, range(1, 10 if quick else 18), [1, 2, 3, 4, 8] if quick else [1, 2, 3, 4, 5, 8, 16])
     krecs += observe_builder(rng, [1, 2, 3, 5, 8] if quick else [1, 2, 3, 4, 5, 7, 8, 16, True], quick)
     krecs += observe_sparse_dispatch(rng, quick)
+    krecs += observe_parallel_kron(rng, quick)
     krecs += observe_gen_builders(rng, quick)
     ctx.sample({"kernel": krecs[7]})
     ctx.sample({"kernel": krecs[-1]})
